@@ -26,6 +26,7 @@ def declare(rep):
     rep.rule("C12.volume-integrand", "compute_volume / signed volume accumulate x1.(x2 x x3) of the face's nodes; volume = |sum|/6", floor=3)
     rep.rule("C12.area-normal", "update_face_normal_and_area: area = |(x2-x1)x(x3-x1)|/2, normal = normalised cross product", floor=2)
     rep.rule("C12.centroid", "compute_centroid: sum over used faces of (x1+x2+x3)/3*area, divided by area_", floor=2)
+    rep.rule("C12.flood-fill-complete", "the winding flood fill of check_face_normal_orientation queues, for the seed face and for every face it visits, the neighbours across all three edges of that face - (n1,n2), (n2,n3), (n3,n1): a neighbour that is never queued from a face can stay unreached, so a wrongly wound input triangle is left as it is", floor=2)
     rep.rule("C12.area-sum", "compute_area: sum of get_area() over used faces only", floor=1)
     rep.rule("C12.aabb", "get_aabb: running min/max per axis over used nodes from +/-infinity, returned as (min xyz, max xyz)", floor=7)
     rep.rule("C12.eigen-layout", "the axis returned for eigenvalue k is (evec[k][0], evec[k][1], evec[k][2]): index bookkeeping through the mat33 constructor, transpose and get_col agrees between eigen_decomposition and get_cell_longest_axis", floor=3)
@@ -55,6 +56,7 @@ def run(rep, prog, tier):
     area_normal(rep, prog)
     centroid(rep, prog)
     area_sum(rep, prog)
+    flood_fill_complete(rep, prog)
     aabb(rep, prog)
     covariance(rep, prog)
     eigen_layout(rep, prog)
@@ -357,6 +359,58 @@ def centroid(rep, prog):
         rep.violation("C12.centroid", prog, fn, None, "centroid not normalised by area_", "compute_centroid must divide the accumulated sum by area_; it returns %s" % re.sub(r"#\d+(~\d+)?", "", str(comps))[:160])
 
 
+def _chain_through_ranges(fn, e):
+    """def_chain of e where an element variable of a range-for stands for the elements of the range expression"""
+    from ..model import def_chain
+    ranges = {n["var"].get("did"): n["range"] for n in walk(fn["body"]) if n.get("k") == "CXXForRangeStmt" and isinstance(n.get("var"), dict) and isinstance(n.get("range"), dict)}
+    todo, done = [e], set()
+    while todo:
+        x0 = todo.pop()
+        for d_ in def_chain(fn, x0, depth=10):
+            yield d_
+            for y in walk(d_):
+                if y.get("k") == "DeclRefExpr" and isinstance(y.get("ref"), dict) and y["ref"].get("did") in ranges and y["ref"]["did"] not in done:
+                    done.add(y["ref"]["did"])
+                    todo.append(ranges[y["ref"]["did"]])
+
+
+def flood_fill_complete(rep, prog):
+    from ..model import def_chain
+    fn = prog.fn("cell::check_face_normal_orientation")
+    fi = prog.index(fn)
+    pushes = [n for n in walk(fn["body"]) if n.get("k") == "CXXMemberCallExpr" and n.get("callee", "").split("::")[-1] in ("push_back", "emplace_back", "push_front") and "pair" in (strip(call_obj(n) or {}).get("t") or "")]
+    groups = {}
+    for pcall in pushes:
+        blk = None
+        for p_, _s, _c in fi.ancestors(pcall):
+            if p_.get("k") == "CompoundStmt" and (fi.parent.get(id(p_), (None, None))[0] or {}).get("k") in ("WhileStmt", "ForStmt", "DoStmt", None) or p_ is fn["body"]:
+                blk = p_
+                break
+        groups.setdefault(id(blk), (blk, []))[1].append(pcall)
+    n = 0
+    for bid, (blk, calls) in groups.items():
+        edges = set()
+        pairs = set()
+        for pcall in calls:
+            for d_ in _chain_through_ranges(fn, call_args(pcall)[0]):
+                for x in walk(d_):
+                    if x.get("k") == "CXXMemberCallExpr" and x.get("callee") == "cell::get_edge":
+                        pr = frozenset(render(a_).replace(" ", "") for a_ in call_args(x))
+                        pairs.add(pr)
+                        edges.add(pr)
+        if not edges:
+            continue
+        n += 1
+        nodes = set().union(*pairs) if pairs else set()
+        if len(edges) == 3 and len(pairs) == 3 and len(nodes) == 3:
+            rep.ok("C12.flood-fill-complete", prog, fn, calls[0], "the neighbours across the three edges %s are queued" % sorted(tuple(sorted(p_)) for p_ in pairs))
+        else:
+            rep.violation("C12.flood-fill-complete", prog, fn, calls[0], "flood fill queues the neighbours of %d of the 3 edges" % len(edges),
+                          "check_face_normal_orientation queues %d neighbour(s) of a face but they lie across only %d distinct edge(s) (%s): the face across the remaining edge is never queued from here, so parts of the surface may never be reached by the flood fill and a wrongly wound input triangle there keeps its winding - the cell is handed over with some normals pointing inward" % (len(calls), len(edges), sorted(tuple(sorted(p_)) for p_ in pairs)))
+    if n == 0:
+        raise AnalysisBroken("check_face_normal_orientation: the flood fill (queueing of the neighbours across the edges) was not found")
+
+
 def area_sum(rep, prog):
     fn = prog.fn("cell::compute_area")
     fi = prog.index(fn)
@@ -373,7 +427,14 @@ def area_sum(rep, prog):
                 r = strip(e["c"][1])
                 if r.get("k") == "ConditionalOperator" and strip(r["c"][0]).get("callee") == "face::is_used" and strip(r["c"][1]).get("callee") == "face::get_area" and strip(r["c"][2]).get("k") in ("FloatingLiteral", "IntegerLiteral") and float(strip(r["c"][2])["v"]) == 0.0:
                     init = strip(call_args(acc[0])[2])
-                    ok = init.get("k") in ("FloatingLiteral",) and float(init["v"]) == 0.0 and "face_lst_" in render(call_args(acc[0])[0])
+                    from ..model import expand_text as _et3
+                    b_txt = _et3(fn, call_args(acc[0])[0]).replace("this->", "").replace(" ", "")
+                    e_txt = _et3(fn, call_args(acc[0])[1]).replace("this->", "").replace(" ", "")
+                    whole = "face_lst_.begin()" in b_txt and "+" not in b_txt and "face_lst_.end()" in e_txt and "-" not in e_txt
+                    ok = init.get("k") in ("FloatingLiteral",) and float(init["v"]) == 0.0 and whole
+                    if not whole:
+                        rep.violation("C12.area-sum", prog, fn, acc[0], "area summed over part of the face slots", "compute_area accumulates over [%s, %s) instead of every slot of face_lst_: the used faces are not packed at the front of the list (after an edge merge the free slots lie in the middle), so faces stored behind that bound are left out of area_ - and of the normalisation of compute_centroid() - until the next rebase()" % (b_txt[:50], e_txt[:60]))
+                        return
     else:
         # loop form: total = 0; for every slot of face_lst_: if used: total += area of that face; return total
         try:
